@@ -89,14 +89,19 @@ def r2_flag_carried(cx):
     wc = gb.calls(r"ClusterWriterProxy::<.*>::write_cluster$")
     ok = len(su) == 1 and len(wc) == 1 and op_base_local(su[0][1]["args"][2]) in flag and op_base_local(wc[0][1]["args"][2]) in flag
     sw = [s for s in range(gb.n) if gb.term(s)["k"] == "switch" and op_base_local(gb.term(s)["op"]) in flag]
-    ok = ok and len(sw) >= 1 and all(_slot_by_flag(gb, s) for s in sw)
+    g_slots = {_slot_by_flag(gb, s) for s in sw}
+    ok = ok and len(sw) >= 1 and None not in g_slots and len(g_slots) == 1
     cx.ob("R2", "R2/get_open_cluster", ok, g, "get_open_cluster gives the same flag to setup_slot_and_get_to_close, to write_cluster and to the slot selection (true -> comp_open_cluster, false -> raw_open_cluster)")
     h = F.one(impl_self="ContentPackCreator", item="setup_slot_and_get_to_close", closure=False)
     hb = F.body(h)
     flag = _flag_locals(hb, {3})
     oc = hb.calls(r"ContentPackCreator::<.*>::open_cluster$")
     sw = [s for s in range(hb.n) if hb.term(s)["k"] == "switch" and op_base_local(hb.term(s)["op"]) in flag]
-    ok = len(oc) >= 1 and all(op_base_local(t["args"][1]) in flag for _, t in oc) and len(sw) >= 2 and all(_slot_by_flag(hb, s) for s in sw)
+    h_slots = {_slot_by_flag(hb, s) for s in sw}
+    ok = len(oc) >= 1 and all(op_base_local(t["args"][1]) in flag for _, t in oc) and len(sw) >= 1 and None not in h_slots and len(h_slots) == 1
+    SLOTS = next(iter(h_slots)) if ok else None
+    # every site maps the flag to the same slot: true -> the slot that receives clusters opened with compressed = true
+    ok = ok and (not g_slots or g_slots == h_slots)
     cx.ob("R2", "R2/setup_slot", ok, h, "setup_slot_and_get_to_close: every slot selection and every open_cluster(compressed) use the flag it received (%d selections, %d open_cluster)" % (len(sw), len(oc)))
     k = F.one(impl_self="ContentPackCreator", item="open_cluster", closure=False)
     kb = F.body(k)
@@ -130,23 +135,27 @@ def r2_flag_carried(cx):
     wcs = zb.calls(r"ClusterWriterProxy::<.*>::write_cluster$")
     got = {}
     feasible, _ = zb.explore()          # constants of (inlined) helper arguments decide which slot each site takes
+    tru = set(SLOTS[0]) - set(SLOTS[1]) if SLOTS else {"comp_open_cluster"}
+    fal = set(SLOTS[1]) - set(SLOTS[0]) if SLOTS else {"raw_open_cluster"}
     for i, t in wcs:
         if i not in feasible:
             continue
-        o = zb.origins(t["args"][1], blocks=feasible)
-        raw, comp = ("field", "raw_open_cluster") in o, ("field", "comp_open_cluster") in o
+        fields = {x[1] for x in zb.origins(t["args"][1], blocks=feasible) if x[0] == "field"}
+        raw, comp = bool(fal & fields), bool(tru & fields)
         slot = "raw" if raw and not comp else ("comp" if comp and not raw else "?")
         got[slot] = op_const_deep(zb, t["args"][2])
     cx.ob("R2", "R2/finalize-slots", got == {"raw": False, "comp": True}, fz, "finalize flushes the raw slot with compressed=false and the compressed slot with compressed=true (%s)" % got)
 
 
 def _slot_by_flag(b, s):
-    """switch on the flag: the true arm takes comp_open_cluster, the false arm raw_open_cluster (first field ref reached)"""
+    """switch on the flag: (field path taken on the true arm, field path taken on the false arm) -- the first place
+    with a field projection borrowed on each arm; the two open-cluster slots are told apart by these paths, whatever
+    the fields are called"""
     t = b.term(s)
     false_t = t["targets"][t["vals"].index(0)] if 0 in t["vals"] else None
     true_t = t["otherwise"]
     if false_t is None:
-        return False
+        return None
 
     def first_slot(start):
         seen = set()
@@ -158,15 +167,17 @@ def _slot_by_flag(b, s):
             seen.add(x)
             for stt in b.stmts(x):
                 if stt["k"] == "assign" and stt["rv"]["k"] == "ref":
-                    fs = place_fields(stt["rv"]["pl"])
-                    for n in fs:
-                        if n in ("comp_open_cluster", "raw_open_cluster"):
-                            return n
+                    fs = tuple(n for n in place_fields(stt["rv"]["pl"]) if n and not n.isdigit())
+                    if fs:
+                        return fs
             tt = b.term(x)
             if tt["k"] == "goto":
                 st.append(tt["t"])
         return None
-    return first_slot(true_t) == "comp_open_cluster" and first_slot(false_t) == "raw_open_cluster"
+    a, c = first_slot(true_t), first_slot(false_t)
+    if a is None or c is None or a == c:
+        return None
+    return (a, c)
 
 
 def _bool_after(wb, succ, assume_none, flagval):
